@@ -18,7 +18,7 @@ LEVEL = "exploration"
 RULE = ("One Hypothesis binary draw is decoded into an abstract configuration: version + pattern (v2 and legacy), optional "
         "commit/tag message, tag scope (incl. an invalid one), hooks that exist or not, commit/tag/push (incl. invalid "
         "combinations and missing keys), 0..6 files x 1..4 search patterns ({version}, {pep440_version}, partial), a glob "
-        "entry; it is rendered into six sibling directories: setup.cfg [bumpver], setup.cfg [pycalver], pyproject.toml "
+        "entry, a glob entry that covers the config file itself plus a sibling (*.cfg / *.toml); it is rendered into six sibling directories: setup.cfg [bumpver], setup.cfg [pycalver], pyproject.toml "
         "[tool.bumpver], bumpver.toml, .bumpver.toml, pycalver.toml [pycalver] - INI booleans in every accepted spelling (yes "
         "true 1 on in any case; other words for false), INI strings unquoted / double / single quoted independently per key. "
         "Oracle: config.init gives None in all six or Configs that are equal field by field and in the set of (file, search "
@@ -83,6 +83,10 @@ def build(d):
         k += 1
         files.append(["glob/*.txt", [d.choice(GENERIC).replace("{k}", str(k))]])
     cfg["files"] = files
+    if d.chance(1, 5):
+        # a glob entry that covers the config file itself and a sibling of the same extension (*.cfg / *.toml)
+        k += 1
+        cfg["config_glob"] = "mark%d <{version}>" % k
     ini = {"bool": {key: d.choice(TRUE_WORDS if cfg.get(key) else FALSE_WORDS) for key in ("commit", "tag", "push")},
            "quote": {key: d.choice(["", '"', "'"]) for key in ("current_version", "version_pattern", "commit_message", "tag_message",
                                                                 "tag_scope", "pre_commit_hook", "post_commit_hook")},
@@ -105,6 +109,8 @@ def render_ini(cfg, ini, section):
         lines.append("%s =" % path)
         for p in pats:
             lines.append("    " + p)
+    if cfg.get("config_glob"):
+        lines += ["*.cfg =", "    " + cfg["config_glob"], "", "# " + old_text(cfg, cfg["config_glob"])]
     return "\n".join(lines) + "\n"
 
 
@@ -125,6 +131,8 @@ def render_toml(cfg, table):
         for p in pats:
             lines.append("    %s," % projgen.toml_str(p))
         lines.append("]")
+    if cfg.get("config_glob"):
+        lines += ["'*.toml' = [%s]" % projgen.toml_str(cfg["config_glob"]), "", "# " + old_text(cfg, cfg["config_glob"])]
     return "\n".join(lines) + "\n"
 
 
@@ -149,6 +157,8 @@ def materialise(root, cfg, ini, fmt):
     projgen.write_file(root, fname, render_ini(cfg, ini, section) if kind == "ini" else render_toml(cfg, section))
     projgen.write_file(root, "hooks/run.sh", "#!/bin/sh\nexit 0\n")
     os.chmod(os.path.join(root, "hooks/run.sh"), 0o755)
+    if cfg.get("config_glob"):
+        projgen.write_file(root, "sibling." + ("cfg" if kind == "ini" else "toml"), "# line: %s\n" % old_text(cfg, cfg["config_glob"]))
     for path, pats in cfg["files"]:
         body = "".join("line: %s\n" % old_text(cfg, p) for p in pats)
         if "*" in path:
@@ -168,7 +178,7 @@ def summarise(cfgobj, own):
             if path == own:
                 own_patterns.append(p)
             else:
-                pairs.add((path, p.raw_pattern))
+                pairs.add(("<SIBLING>" if path in ("sibling.cfg", "sibling.toml") else path, p.raw_pattern))
     d["tag_scope"] = d["tag_scope"].value
     return d, pairs, own_patterns
 
@@ -228,10 +238,10 @@ def check(case):
         for i, (fmt, root, c, _crash) in enumerate(results):
             r1 = bv.run(["show", "--no-fetch"], cwd=root)
             r2 = bv.run(["update", "--no-fetch", "--dry", "--date", "2021-03-04"] + cfg["flags"], cwd=root, today=dt.date(2021, 3, 4))
-            norm = lambda t: t.replace(fmt[0], "<CONFIG>")  # noqa: E731
+            norm = lambda t: t.replace(fmt[0], "<CONFIG>").replace("sibling.cfg", "<SIBLING>").replace("sibling.toml", "<SIBLING>")  # noqa: E731
             # the diff of the config file itself necessarily differs between formats: compare the other files' hunks
             try:
-                sections = [(p, h) for p, h in udiff.parse(r2.out) if p != fmt[0]] if r2.exit == 0 else None
+                sections = [(norm(p), h) for p, h in udiff.parse(r2.out) if p != fmt[0]] if r2.exit == 0 else None
                 has_cfg = any(p == fmt[0] for p, _h in udiff.parse(r2.out)) if r2.exit == 0 else None
             except udiff.DiffError as ex:
                 sections, has_cfg = "unparseable: %s" % ex, None
@@ -243,7 +253,7 @@ def check(case):
             if o[2] != outs[3][2] or o[3] != outs[3][3]:
                 return viol("update-dry-differs-between-formats", {"format_kind": FORMATS[i][1]},
                             dict(detail, format=names[i], here=[o[2], o[3][-600:], o[4]], reference=[outs[3][2], outs[3][3][-600:], outs[3][4]]), nt=nt)
-        return ok(nt=nt, classes=("loaded-everywhere",))
+        return ok(nt=nt, classes=("loaded-everywhere", "glob-covers-config-file") if cfg.get("config_glob") else ("loaded-everywhere",))
     finally:
         os.chdir(cwd0)
         shutil.rmtree(base, ignore_errors=True)
